@@ -287,11 +287,15 @@ theorem finalise_spec (f : Nat) : ∀ (s : St) (a : Addr), Disj s → NoDAlloc s
     have he1 : Eff s s1 [] [Ev.fin a] := Eff.log_only s _
     have hmu1 : mu s1 ≤ f := Nat.le_trans he1.mu_le hmu'
     obtain ⟨D, E, he2, hg, ht, hr, hc, hk⟩ := fold_spec ih (s.ownsOf a) s1 (he1.disj hd) (he1.nodalloc hnd) hmu1
-    have he3 := Eff.log_only ((s.ownsOf a).foldl (fun st x => gcRem (finalise f Cfg.current) Cfg.current st x) s1) [Ev.free a]
+    have he3n := Eff.maybe_null Cfg.current (s.nulldel.contains a)
+      ((s.ownsOf a).foldl (fun st x => gcRem (finalise f Cfg.current) Cfg.current st x) s1)
+    have he3 := Eff.log_only (if s.nulldel.contains a then gcRemNull Cfg.current
+      ((s.ownsOf a).foldl (fun st x => gcRem (finalise f Cfg.current) Cfg.current st x) s1)
+      else (s.ownsOf a).foldl (fun st x => gcRem (finalise f Cfg.current) Cfg.current st x) s1) [Ev.free a]
     have hsub : ∀ b, Tracked s1 b → Tracked s b := fun b h => ((he1.tracked b).1 h).1
     have hsup : ∀ b, Tracked s b → Tracked s1 b := fun b h => (he1.tracked b).2 ⟨h, by simp⟩
     refine ⟨D, E, ?_, hg, ?_, ?_, ?_, ?_⟩
-    · have := (he1.trans he2).trans he3
+    · have := ((he1.trans he2).trans he3n).trans he3
       simpa [finalise, St.dallocOf_nil hnd] using this
     · intro d hdd
       exact hsub d (ht d hdd)
@@ -469,7 +473,8 @@ theorem sweep_spec (s : St) (marks order : List Addr) (hp : s.pending = []) (hn 
     · rintro ⟨e, he, hs, rfl⟩; exact ⟨e, List.mem_filter.2 ⟨he, hs⟩, rfl⟩
   generalize hs1 : ({ s with reg := s.reg.filter (fun e => !swept marks e),
                              pending := (pendingOf s marks order).map some,
-                             mitems := threshold (s.reg.filter (fun e => !swept marks e)).length } : St) = s1
+                             mitems := threshold (s.reg.filter (fun e => !swept marks e)).length,
+                             marked := [] } : St) = s1
   have hsw : sweep Cfg.current s marks order =
       { (sweepLoop (fuelFor s) Cfg.current (pendingOf s marks order) s1) with pending := [] } := by
     rw [← hs1]; rfl
